@@ -664,6 +664,8 @@ class Parser:
                 return cast(str, ast.literal_eval('"' + m.group(0) + '"'))
             except SyntaxError as e:
                 self.raise_syntax_error_known_location(e.msg, node)
+            except UnicodeEncodeError as e:  # a lone surrogate after the backslash
+                self.raise_syntax_error_known_location(f"(unicode error) {e}", node)
 
         return self._FSTRING_ESCAPE.sub(decode, text)
 
